@@ -3,6 +3,7 @@ package main
 import (
 	"fmt"
 	"go/token"
+	"go/types"
 	"sort"
 	"strings"
 
@@ -830,3 +831,99 @@ func ruleDryModelAgrees(p *Program, r *Report) {
 }
 
 func init() { register("C19", Rule{"R19g", ruleDryModelAgrees}) }
+
+// R19h: a deferred assignment does not erase an error.  A deferred closure that stores into the function's named
+// error result runs on every return, including those that already carry an error (a failed Write or Sync).  Unless
+// the store is conditional on the result still being nil (or it is a recover handler, which must overwrite), the
+// earlier error is replaced — typically by Close's nil — and the command reports success for a truncated file.
+func ruleDeferKeepsError(p *Program, r *Report) {
+	r.Begin("R19h", "deferred stores keep the first error: in the module's functions with a named error result, a deferred closure that assigns that result does so only under a test that the result is still nil (first error wins) or inside a recover() handler; an unconditional `defer func() { err = f.Close() }()` turns a failed Write/Sync into success", 0)
+	defer r.End()
+	errT := types.Universe.Lookup("error").Type()
+	n := 0
+	for _, fn := range p.RepoFns {
+		res := fn.Signature.Results()
+		if res.Len() == 0 || !types.Identical(res.At(res.Len()-1).Type(), errT) {
+			continue
+		}
+		ForEachInstr(fn, func(ins ssa.Instruction) {
+			d, ok := ins.(*ssa.Defer)
+			if !ok {
+				return
+			}
+			mc, ok := d.Call.Value.(*ssa.MakeClosure)
+			if !ok {
+				return
+			}
+			h := mc.Fn.(*ssa.Function)
+			// captured cells that are named error results of fn (read by a Return after RunDefers or in the recover block)
+			resultCell := map[ssa.Value]bool{}
+			ForEachInstr(fn, func(i2 ssa.Instruction) {
+				if ret, ok := i2.(*ssa.Return); ok {
+					if ld, ok := ret.Results[len(ret.Results)-1].(*ssa.UnOp); ok {
+						if al, ok := ld.X.(*ssa.Alloc); ok {
+							resultCell[al] = true
+						}
+					}
+				}
+			})
+			isRecover := false
+			ForEachInstr(h, func(i2 ssa.Instruction) {
+				if c, ok := i2.(*ssa.Call); ok {
+					if b, ok := c.Call.Value.(*ssa.Builtin); ok && b.Name() == "recover" {
+						isRecover = true
+					}
+				}
+			})
+			pd := NewPostDom(h)
+			ord := 0
+			ForEachInstr(h, func(i2 ssa.Instruction) {
+				st, ok := i2.(*ssa.Store)
+				if !ok {
+					return
+				}
+				fv, ok := st.Addr.(*ssa.FreeVar)
+				if !ok {
+					return
+				}
+				idx := -1
+				for i, f := range h.FreeVars {
+					if f == fv {
+						idx = i
+					}
+				}
+				if idx < 0 || idx >= len(mc.Bindings) || !resultCell[mc.Bindings[idx]] {
+					return
+				}
+				n++
+				ord++
+				r.Fn(FnName(fn))
+				key := fmt.Sprintf("deferred-store@%s~%d", FnName(fn), ord)
+				if isRecover {
+					r.OK(key, "recover handler (overwrites by design; R17h)", st.Pos())
+					return
+				}
+				// conditional on the result cell being nil?
+				guarded := false
+				for _, cd := range pd.TransitiveControlDeps(st.Block()) {
+					cond := IfCond(cd.Br)
+					if cond != nil && DependsOn(cond, func(x ssa.Value) bool {
+						ld, ok := x.(*ssa.UnOp)
+						return ok && ld.X == ssa.Value(fv)
+					}) {
+						guarded = true
+					}
+				}
+				r.Check(guarded, key, "assigned only while the result is still nil", fmt.Sprintf("%s assigns its named error result in a deferred closure without first testing that it is still nil: an error already being returned (a failed Write or Sync) is overwritten, usually by nil, and the caller is told the operation succeeded", FnName(fn)), st.Pos())
+			})
+		})
+	}
+	if n == 0 {
+		r.Info("sites", "no deferred closure assigns a named error result outside recover handlers", 0)
+	}
+}
+
+func init() {
+	register("C19", Rule{"R19h", ruleDeferKeepsError})
+	register("C10", Rule{"R19h", ruleDeferKeepsError})
+}
